@@ -418,12 +418,15 @@ class CustomSD(BaseCorrelations):
                 tmp_temperature))
         self.temperature = tmp_temperature
 
-        self._cutoff_function = \
-            lambda omega: CUTOFF_DICT[self.cutoff_type](omega, self.cutoff)
-        self._spectral_density = \
-            lambda omega: self.j_function(omega) * self._cutoff_function(omega)
-
         super().__init__(name, description)
+
+    def _cutoff_function(self, omega: ArrayLike) -> ArrayLike:
+        """The cutoff function for the current cutoff and cutoff type. """
+        return CUTOFF_DICT[self.cutoff_type](omega, self.cutoff)
+
+    def _spectral_density(self, omega: ArrayLike) -> ArrayLike:
+        """The current spectral density (including the cutoff). """
+        return self.j_function(omega) * self._cutoff_function(omega)
 
     def __str__(self) -> Text:
         ret = []
@@ -771,6 +774,17 @@ class PowerLawSD(CustomSD):
                          temperature=temperature,
                          name=name,
                          description=description)
+
+    def __copy__(self) -> 'PowerLawSD':
+        """A copy has its own j-function (which reads alpha, zeta and cutoff
+        of the object it was created for). """
+        return PowerLawSD(alpha=self.alpha,
+                          zeta=self.zeta,
+                          cutoff=self.cutoff,
+                          cutoff_type=self.cutoff_type,
+                          temperature=self.temperature,
+                          name=self.name,
+                          description=self.description)
 
     def _parameters(self) -> tuple:
         """The current parameters that determine the spectral density. """
